@@ -424,6 +424,32 @@ static void h_op(void)
     if (dup) { h_out("%s dup=%s", h_status(st), h_hex(dup, DL + 2)); free(dup); }
     else h_out("%s dup=null", h_status(st));
   }
+  else if (!strcmp(op, "sqcopy")) {
+    /* esl_sq_Copy between the four text/digital mode combinations; then esl_sq_Validate on the copy */
+    const char *from = h_arg("from"), *to = h_arg("to"); int fd = from && !strcmp(from, "digital"), td = to && !strcmp(to, "digital");
+    unsigned char *b = h_unhex(h_arg("hex") ? h_arg("hex") : "-", &n); ESL_SQ *src = NULL, *dst = NULL; ESL_ALPHABET *B = NULL; int st, vst; int64_t i, len;
+    char errbuf[eslERRBUFSIZE];
+    if (fd) {
+      ESL_DSQ *d; for (i = 0; i < n; i++) if (b[i] == 255) { free(b); h_out("bad-op"); return; }
+      d = malloc((size_t) n + 2); d[0] = d[n + 1] = eslDSQ_SENTINEL; memcpy(d + 1, b, (size_t) n);
+      src = esl_sq_CreateDigitalFrom(A, "x", d, n, NULL, NULL, NULL); free(d);
+    } else {
+      if ((int64_t) strlen((char *) b) != n) { free(b); h_out("bad-op"); return; }
+      src = esl_sq_CreateFrom("x", (char *) b, NULL, NULL, NULL);
+    }
+    if (td && h_argi("other", 0)) B = esl_alphabet_Create(A->type == eslAMINO ? eslDNA : eslAMINO);
+    dst = td ? esl_sq_CreateDigital(B ? B : A) : esl_sq_Create();
+    st = esl_sq_Copy(src, dst);
+    if (h_exception_seen) h_out("exception %s", h_status(h_exception_seen));
+    else {
+      if (td) { for (len = 0; dst->dsq[len + 1] != eslDSQ_SENTINEL; len++) ; }
+      else len = (int64_t) strlen(dst->seq);
+      errbuf[0] = 0; vst = esl_sq_Validate(dst, errbuf);
+      h_out("st=%s n=%" PRId64 " len=%" PRId64 " body=%s valid=%s", h_status(st), dst->n, len,
+            td ? h_hex(dst->dsq + 1, len) : h_hex(dst->seq, len), vst == eslOK ? "ok" : "fail");
+    }
+    esl_sq_Destroy(src); esl_sq_Destroy(dst); if (B) esl_alphabet_Destroy(B); free(b);
+  }
   else if (!strcmp(op, "dsqcpy")) {
     /* esl_abc_dsqcpy into an exact-size destination (L+2 codes) pre-filled with 0xEE */
     ESL_DSQ *cp; int st;
